@@ -7,6 +7,7 @@
 import SugarModel.Lemmas.Kv
 import SugarModel.Lemmas.ReadOnly
 import SugarModel.Lemmas.RespWF
+import SugarModel.Lemmas.HashLemmas
 namespace Sugar.Props.C01
 open Sugar
 
@@ -61,19 +62,146 @@ theorem get_absent (c : Ctx) (s : State) (k : Bytes) (h : s.lookup c.db k = none
     (handleGet c [b "get", k]).run c s = (s, .done (.ok nilBulk)) := by
   simp [handleGet, keysExist_single, h]
 
-/-- **Counters obey integer arithmetic** (integer-typed value, result inside the 64-bit range):
-    INCR answers n + 1 and stores its decimal text -/
-theorem incr_arith (c : Ctx) (s : State) (k : Bytes) (n : Int) (ex : Option Int) (hm : c.cfg.maxMemory = 0)
-    (h : s.lookup c.db k = some ⟨.int n, ex⟩) (hlive : (⟨.int n, ex⟩ : Entry).expired c.now = false)
-    (hr : minInt64 ≤ n + 1 ∧ n + 1 ≤ maxInt64) :
-    ((handleIncr c [b "incr", k]).run c s).2 = .done (.ok (intReply (n + 1))) ∧
-    ((handleIncr c [b "incr", k]).run c s).1.lookup c.db k = some ⟨.str (fmtInt (n + 1)), ex⟩ := by
-  have hw : wrap64 (n + 1) = n + 1 := by
-    unfold wrap64 minInt64 maxInt64 at *
-    simp only
-    split <;> omega
-  obtain ⟨hs1, hs2, _⟩ := setValues_single c s k (.str (fmtInt (n + 1))) hm
-  simp [handleIncr, incrCore, getValues_live _ _ _ _ h hlive, hw, setOrErr, hs1, hs2, h]
+/-- the integer a stored value counts as under INCR / DECR / INCRBY / DECRBY: an integer-typed value, or a
+    string that is the decimal text of a 64-bit integer -/
+def counterOf : Val → Option Int
+  | .int n => some n
+  | .str t => parseInt64 t
+  | _ => none
+
+/-- **The common body of the counter commands obeys integer arithmetic** (repaired in /repo by a `fix:`
+    commit; before it an out-of-range result wrapped around). For every state and every live key holding a
+    counter `n`: when `f n` lies inside the 64-bit range the reply is `f n`, the key holds its decimal text
+    under its old deadline and no other key changes; when it lies outside, the command answers the overflow
+    error and **the state is unchanged**. -/
+theorem incrCore_arith (c : Ctx) (s : State) (k : Bytes) (v : Val) (n : Int) (ex : Option Int) (absent : Int) (f : Int → Int)
+    (hm : c.cfg.maxMemory = 0)
+    (h : s.lookup c.db k = some ⟨v, ex⟩) (hlive : (⟨v, ex⟩ : Entry).expired c.now = false) (hn : counterOf v = some n) :
+    (minInt64 ≤ f n ∧ f n ≤ maxInt64 →
+      ((incrCore k absent f).run c s).2 = .done (.ok (intReply (f n))) ∧
+      ((incrCore k absent f).run c s).1.lookup c.db k = some ⟨.str (fmtInt (f n)), ex⟩ ∧
+      ∀ k2, k ≠ k2 → ((incrCore k absent f).run c s).1.lookup c.db k2 = s.lookup c.db k2) ∧
+    (¬ (minInt64 ≤ f n ∧ f n ≤ maxInt64) →
+      (incrCore k absent f).run c s = (s, .done (.err overflowErr))) := by
+  obtain ⟨hs1, hs2, hs3⟩ := setValues_single c s k (.str (fmtInt (f n))) hm
+  have hg := getValues_live c s k _ h hlive
+  constructor
+  · intro hr
+    have h1 : ¬ (f n < minInt64) := by omega
+    have h2 : ¬ (f n > maxInt64) := by omega
+    cases v with
+    | int m =>
+      simp only [counterOf, Option.some.injEq] at hn; subst hn
+      simp [incrCore, hg, setOrErr, hs1, hs2, h, h1, h2]
+      exact hs3
+    | str t =>
+      simp only [counterOf] at hn
+      simp [incrCore, hg, hn, setOrErr, hs1, hs2, h, h1, h2]
+      exact hs3
+    | _ => simp [counterOf] at hn
+  · intro hr
+    have h1 : f n < minInt64 ∨ f n > maxInt64 := by omega
+    cases v with
+    | int m =>
+      simp only [counterOf, Option.some.injEq] at hn; subst hn
+      simp [incrCore, hg, h1]
+    | str t =>
+      simp only [counterOf] at hn
+      simp [incrCore, hg, hn, h1]
+    | _ => simp [counterOf] at hn
+
+/-- **Counters obey integer arithmetic: INCR.** For every state and every live key holding a counter `n`
+    (integer-typed or decimal text): below the largest int64, INCR answers `n + 1` and stores its decimal text
+    (deadline kept); on the largest int64 it answers the overflow error and changes nothing. -/
+theorem incr_arith (c : Ctx) (s : State) (k : Bytes) (v : Val) (n : Int) (ex : Option Int) (hm : c.cfg.maxMemory = 0)
+    (h : s.lookup c.db k = some ⟨v, ex⟩) (hlive : (⟨v, ex⟩ : Entry).expired c.now = false) (hn : counterOf v = some n)
+    (hlo : minInt64 ≤ n) :
+    (n + 1 ≤ maxInt64 →
+      ((handleIncr c [b "incr", k]).run c s).2 = .done (.ok (intReply (n + 1))) ∧
+      ((handleIncr c [b "incr", k]).run c s).1.lookup c.db k = some ⟨.str (fmtInt (n + 1)), ex⟩) ∧
+    (maxInt64 < n + 1 → (handleIncr c [b "incr", k]).run c s = (s, .done (.err overflowErr))) := by
+  obtain ⟨a1, a2⟩ := incrCore_arith c s k v n ex 1 (· + 1) hm h hlive hn
+  have hmin : minInt64 ≤ n + 1 := by omega
+  refine ⟨fun hr => ?_, fun hr => ?_⟩
+  · obtain ⟨r1, r2, _⟩ := a1 ⟨hmin, hr⟩
+    exact ⟨by simpa [handleIncr] using r1, by simpa [handleIncr] using r2⟩
+  · simpa [handleIncr] using a2 (by omega)
+
+/-- **DECR** likewise: above the smallest int64 it answers `n - 1`; on the smallest it fails, nothing changes -/
+theorem decr_arith (c : Ctx) (s : State) (k : Bytes) (v : Val) (n : Int) (ex : Option Int) (hm : c.cfg.maxMemory = 0)
+    (h : s.lookup c.db k = some ⟨v, ex⟩) (hlive : (⟨v, ex⟩ : Entry).expired c.now = false) (hn : counterOf v = some n)
+    (hhi : n ≤ maxInt64) :
+    (minInt64 ≤ n - 1 →
+      ((handleDecr c [b "decr", k]).run c s).2 = .done (.ok (intReply (n - 1))) ∧
+      ((handleDecr c [b "decr", k]).run c s).1.lookup c.db k = some ⟨.str (fmtInt (n - 1)), ex⟩) ∧
+    (n - 1 < minInt64 → (handleDecr c [b "decr", k]).run c s = (s, .done (.err overflowErr))) := by
+  obtain ⟨a1, a2⟩ := incrCore_arith c s k v n ex (-1) (· - 1) hm h hlive hn
+  have hmax : n - 1 ≤ maxInt64 := by omega
+  refine ⟨fun hr => ?_, fun hr => ?_⟩
+  · obtain ⟨r1, r2, _⟩ := a1 ⟨hr, hmax⟩
+    exact ⟨by simpa [handleDecr] using r1, by simpa [handleDecr] using r2⟩
+  · simpa [handleDecr] using a2 (by omega)
+
+/-- **INCRBY / DECRBY**: for every increment `d` the client can spell (64-bit decimal), the result is the exact
+    integer `n + d` (`n - d`) when it fits in 64 bits, and the overflow error with the state unchanged when it
+    does not — the decrement `-9223372036854775808`, which has no negation, included. -/
+theorem incrby_decrby_arith (c : Ctx) (s : State) (k arg : Bytes) (v : Val) (n d : Int) (ex : Option Int)
+    (hm : c.cfg.maxMemory = 0)
+    (h : s.lookup c.db k = some ⟨v, ex⟩) (hlive : (⟨v, ex⟩ : Entry).expired c.now = false) (hn : counterOf v = some n)
+    (hd : parseInt64 arg = some d) :
+    ((minInt64 ≤ n + d ∧ n + d ≤ maxInt64 →
+        ((handleIncrBy c [b "incrby", k, arg]).run c s).2 = .done (.ok (intReply (n + d))) ∧
+        ((handleIncrBy c [b "incrby", k, arg]).run c s).1.lookup c.db k = some ⟨.str (fmtInt (n + d)), ex⟩) ∧
+      (¬ (minInt64 ≤ n + d ∧ n + d ≤ maxInt64) →
+        (handleIncrBy c [b "incrby", k, arg]).run c s = (s, .done (.err overflowErr)))) ∧
+    ((minInt64 ≤ n - d ∧ n - d ≤ maxInt64 →
+        ((handleDecrBy c [b "decrby", k, arg]).run c s).2 = .done (.ok (intReply (n - d))) ∧
+        ((handleDecrBy c [b "decrby", k, arg]).run c s).1.lookup c.db k = some ⟨.str (fmtInt (n - d)), ex⟩) ∧
+      (¬ (minInt64 ≤ n - d ∧ n - d ≤ maxInt64) →
+        (handleDecrBy c [b "decrby", k, arg]).run c s = (s, .done (.err overflowErr)))) := by
+  obtain ⟨a1, a2⟩ := incrCore_arith c s k v n ex d (· + d) hm h hlive hn
+  obtain ⟨b1, b2⟩ := incrCore_arith c s k v n ex (d * -1) (· - d) hm h hlive hn
+  refine ⟨⟨fun hr => ?_, fun hr => ?_⟩, ⟨fun hr => ?_, fun hr => ?_⟩⟩
+  · obtain ⟨r1, r2, _⟩ := a1 hr
+    exact ⟨by simpa [handleIncrBy, hd] using r1, by simpa [handleIncrBy, hd] using r2⟩
+  · simpa [handleIncrBy, hd] using a2 hr
+  · obtain ⟨r1, r2, _⟩ := b1 hr
+    exact ⟨by simpa [handleDecrBy, hd] using r1, by simpa [handleDecrBy, hd] using r2⟩
+  · simpa [handleDecrBy, hd] using b2 hr
+
+/-- **a missing key counts as 0** — and `DECRBY k -9223372036854775808` on it, whose result `2^63` does not
+    exist in 64 bits, fails without creating the key (before the repair it answered `-9223372036854775808`) -/
+theorem decrby_absent (c : Ctx) (s : State) (k arg : Bytes) (d : Int) (hm : c.cfg.maxMemory = 0)
+    (h : s.lookup c.db k = none) (hd : parseInt64 arg = some d) :
+    (d ≠ minInt64 →
+      ((handleDecrBy c [b "decrby", k, arg]).run c s).2 = .done (.ok (intReply (-d))) ∧
+      ((handleDecrBy c [b "decrby", k, arg]).run c s).1.lookup c.db k = some ⟨.str (fmtInt (-d)), none⟩) ∧
+    (d = minInt64 → (handleDecrBy c [b "decrby", k, arg]).run c s = (s, .done (.err overflowErr))) := by
+  have hr := parseInt64_range arg d hd
+  have hg := getValues_absent c s k h
+  have e : d * -1 = -d := by omega
+  obtain ⟨hs1, hs2, _⟩ := setValues_single c s k (.str (fmtInt (-d))) hm
+  refine ⟨fun hne => ?_, fun heq => ?_⟩
+  · have h1 : ¬ (-d < minInt64) := by unfold minInt64 maxInt64 at *; omega
+    have h2 : ¬ (-d > maxInt64) := by unfold minInt64 maxInt64 at *; omega
+    simp [handleDecrBy, hd, incrCore, hg, e, h1, h2, setOrErr, hs1, hs2, h]
+  · have h2 : -d > maxInt64 := by unfold minInt64 maxInt64 at *; omega
+    simp [handleDecrBy, hd, incrCore, hg, e, h2]
+
+/-- non-vacuity (the former witnesses of the wrap-around): INCR on the largest int64, DECR on the smallest,
+    INCRBY past the top and DECRBY of the smallest int64 on a missing key all fail and change nothing; one
+    step inside the range they answer the exact integer -/
+example :
+    let c : Ctx := { db := 0, now := 1000 }
+    let s : State := { dbs := [(0, ⟨[(b "hi", ⟨.str (b "9223372036854775807"), none⟩),
+                                     (b "lo", ⟨.int (-9223372036854775808), some 5000⟩)], [b "lo"]⟩)], mem := 0 }
+    (handleIncr c [b "incr", b "hi"]).run c s = (s, .done (.err overflowErr)) ∧
+    (handleDecr c [b "decr", b "lo"]).run c s = (s, .done (.err overflowErr)) ∧
+    (handleIncrBy c [b "incrby", b "hi", b "1"]).run c s = (s, .done (.err overflowErr)) ∧
+    (handleDecrBy c [b "decrby", b "k2", b "-9223372036854775808"]).run c s = (s, .done (.err overflowErr)) ∧
+    ((handleDecr c [b "decr", b "hi"]).run c s).2 = .done (.ok (b ":9223372036854775806\r\n")) ∧
+    ((handleIncr c [b "incr", b "lo"]).run c s).1.lookup 0 (b "lo") = some ⟨.str (b "-9223372036854775807"), some 5000⟩ ∧
+    ((handleDecrBy c [b "decrby", b "lo", b "-9223372036854775808"]).run c s).2 = .done (.ok (b ":0\r\n")) := by decide
 
 /-- **Wrong type fails and changes nothing** (STRLEN on a list) -/
 theorem strlen_wrongtype (c : Ctx) (s : State) (k : Bytes) (xs : List Bytes) (ex : Option Int)
@@ -278,6 +406,46 @@ example :
     let c : Ctx := { db := 0, now := 1000 }
     let s : State := { dbs := [(0, ⟨[(b "k", ⟨.str (b "v"), none⟩)], []⟩)], mem := 57 }
     ((handleRename c [b "rename", b "k", b "k"]).run c s).1.lookup 0 (b "k") = some ⟨.str (b "v"), none⟩ := by decide
+
+/-- **RENAME moves the value with its own deadline** (repaired in /repo by a `fix:` commit; before it the moved
+    value took the deadline of the key it overwrote and lost its own). For every state, every live source key
+    and EVERY destination (absent, stored with or without a deadline, even stale): the reply is OK, the
+    destination reads as the source's value under the source's deadline, the source is gone, and no other key
+    of the database is touched. -/
+theorem rename_moves_value_and_deadline (c : Ctx) (s : State) (old new : Bytes) (e : Entry) (hm : c.cfg.maxMemory = 0)
+    (h : s.lookup c.db old = some e) (hlive : e.expired c.now = false) (hv : e.val ≠ .nil) (hne : old ≠ new) :
+    ((handleRename c [b "rename", old, new]).run c s).2 = .done (.ok okReply) ∧
+    ((handleRename c [b "rename", old, new]).run c s).1.lookup c.db new = some ⟨e.val, e.exp⟩ ∧
+    ((handleRename c [b "rename", old, new]).run c s).1.lookup c.db old = none ∧
+    (∀ k2, old ≠ k2 → new ≠ k2 →
+      ((handleRename c [b "rename", old, new]).run c s).1.lookup c.db k2 = s.lookup c.db k2) := by
+  obtain ⟨s', hrun, h1, h2, h3⟩ := handleRename_run c s old new e hm h hlive hv hne
+  rw [hrun]
+  exact ⟨rfl, h1, h2, h3⟩
+
+/-- **a read returns the renamed value**: GET of the new name answers the value, GET of the old name nil -/
+theorem get_after_rename (c : Ctx) (s : State) (old new t : Bytes) (e : Entry) (hm : c.cfg.maxMemory = 0)
+    (h : s.lookup c.db old = some e) (hlive : e.expired c.now = false) (hv : e.val ≠ .nil) (hne : old ≠ new)
+    (ht : e.val.fmtV = some t) :
+    ((handleGet c [b "get", new]).run c ((handleRename c [b "rename", old, new]).run c s).1).2 = .done (.ok (simpleStr t)) ∧
+    ((handleGet c [b "get", old]).run c ((handleRename c [b "rename", old, new]).run c s).1).2 = .done (.ok nilBulk) := by
+  obtain ⟨s', hrun, h1, h2, _⟩ := handleRename_run c s old new e hm h hlive hv hne
+  rw [hrun]
+  have hl : (⟨e.val, e.exp⟩ : Entry).expired c.now = false := hlive
+  refine ⟨?_, ?_⟩
+  · simp [handleGet, keysExist_single, h1, getValues_live _ _ _ _ h1 hl, plusV, ht]
+  · simp [handleGet, keysExist_single, h2]
+
+/-- non-vacuity (the former witness of the defect): SET k1 old PX 1000; SET k2 7 PX 3000; RENAME k1 k2 leaves k2
+    holding `old` under k1's deadline 2000 (it was 4000, k2's); a source without a deadline clears the target's -/
+example :
+    let c : Ctx := { db := 0, now := 1000 }
+    let s : State := { dbs := [(0, ⟨[(b "k1", ⟨.str (b "old"), some 2000⟩), (b "k2", ⟨.int 7, some 4000⟩),
+                                     (b "k3", ⟨.str (b "p"), none⟩)], [b "k1", b "k2"]⟩)], mem := 0 }
+    ((handleRename c [b "rename", b "k1", b "k2"]).run c s).1.lookup 0 (b "k2") = some ⟨.str (b "old"), some 2000⟩ ∧
+    ((handleRename c [b "rename", b "k3", b "k2"]).run c s).1.lookup 0 (b "k2") = some ⟨.str (b "p"), none⟩ ∧
+    ((handleRename c [b "rename", b "k1", b "k9"]).run c s).1.lookup 0 (b "k9") = some ⟨.str (b "old"), some 2000⟩ ∧
+    ((handleRename c [b "rename", b "k1", b "k9"]).run c s).1.lookup 0 (b "k1") = none := by decide
 
 /-- a stale key is still "there": SET k v NX is refused on a key whose deadline has passed -/
 theorem stale_key_refuses_nx_witness :
